@@ -177,6 +177,75 @@ fn unix_fd_reuse(e: &'static Engine, workers: usize, k1: char, k2: char, failed_
     e.note("ok");
 }
 
+/// two handles on one stream (try_clone = a second descriptor with its own registration): two writers, and a reader that
+/// hands over to its clone half way; nothing is lost, each writer's bytes stay in order, EOF comes after both writers closed
+fn unix_clone(e: &'static Engine, workers: usize) {
+    rt_init(workers);
+    static OPEN: AtomicU32 = AtomicU32::new(2);
+    static EARLY: AtomicBool = AtomicBool::new(false);
+    let (a, mut b) = UnixStream::pair().unwrap();
+    let a2 = a.try_clone().unwrap();
+    let mut b2 = b.try_clone().unwrap();
+    e.begin();
+    let mut hs = vec![];
+    for (k, mut w) in [(0u8, a), (1u8, a2)] {
+        hs.push(go!(move || {
+            for i in 0..3u8 {
+                if let Err(err) = w.write_all(&[k * 16 + i]) {
+                    e.fail("write_error", &format!("write failed: {}", err));
+                }
+            }
+            OPEN.fetch_sub(1, Ordering::SeqCst);
+            drop(w);
+        }));
+    }
+    let r = go!(move || {
+        let mut got = vec![];
+        let mut buf = [0u8; 2];
+        // first half through the original handle
+        while got.len() < 3 {
+            match b.read(&mut buf) {
+                Ok(0) => break,
+                Ok(n) => got.extend_from_slice(&buf[..n]),
+                Err(err) => e.fail("read_error", &format!("read failed: {}", err)),
+            }
+        }
+        drop(b);
+        loop {
+            match b2.read(&mut buf) {
+                Ok(0) => {
+                    if OPEN.load(Ordering::SeqCst) != 0 {
+                        EARLY.store(true, Ordering::SeqCst);
+                    }
+                    break;
+                }
+                Ok(n) => got.extend_from_slice(&buf[..n]),
+                Err(err) => e.fail("read_error", &format!("read failed: {}", err)),
+            }
+        }
+        got
+    });
+    for h in hs {
+        if h.join().is_err() {
+            e.fail("unexpected_panic", "a writer panicked");
+        }
+    }
+    let got = r.join().unwrap_or_else(|_| e.fail("unexpected_panic", "the reader panicked"));
+    if EARLY.load(Ordering::SeqCst) {
+        e.fail("early_eof", "read returned 0 while a writer handle was still open");
+    }
+    for k in 0..2u8 {
+        let mine: Vec<u8> = got.iter().cloned().filter(|b| b / 16 == k).collect();
+        if mine != vec![k * 16, k * 16 + 1, k * 16 + 2] {
+            e.fail("stream_corrupted", &format!("bytes of writer {}: {:?} (all received: {:?})", k, mine, got));
+        }
+    }
+    if got.len() != 6 {
+        e.fail("stream_corrupted", &format!("6 bytes sent, received {:?}", got));
+    }
+    e.note("ok");
+}
+
 /// loopback TCP: accept, connect, transfer, EOF
 fn tcp_loopback(e: &'static Engine, workers: usize, len: usize, chunk: usize, bufsz: usize, client_thread: bool) {
     rt_init(workers);
@@ -487,6 +556,7 @@ pub fn build_c17(quick: bool) -> Vec<Scenario> {
         }
         v.push(Scenario::new(p, "unix_stream", format!("unix.2conn.CC.len5.w{}", w), Arc::new(move |e| unix_stream(e, w, 'C', 'C', 5, 0, 4, false, 2))));
         v.push(Scenario::new(p, "tcp", format!("tcp.CC.len7.buf3.w{}", w), Arc::new(move |e| tcp_loopback(e, w, 7, 0, 3, false))));
+        v.push(Scenario::new(p, "unix_clone", format!("unix.try_clone.two_writers.reader_switches_handle.w{}", w), Arc::new(move |e| unix_clone(e, w))));
         // a connection is dropped while another one is created: descriptor numbers are reused at once
         v.push(Scenario::new(p, "unix_fd_reuse", format!("unix.fd_reuse.drop_T.new_CC.w{}", w), Arc::new(move |e| unix_fd_reuse(e, w, 'T', 'C', false))));
         if w == 2 {
